@@ -101,27 +101,48 @@ class Case:
         model, params, bns = _build_model(env, kind, "m_")
         ref_model, ref_params, ref_bns = _build_model(env, kind, "m_")       # same symbolic parameters, driven by hand
         lr = 0.1
-        opt = optim.SGD(model.parameters(), lr=lr)
         crit_real = nn.CrossEntropyLoss() if mode == "multi-class" else nn.MSELoss()
+        off = ref_off = None
+        if sp.get("loss_param"):
+            # a learnable offset that belongs to the loss, not to the model: the optimizer owns a parameter the model does not
+            # register, and "clearing the gradients" means the gradients of what is updated
+            off = nn.Parameter(Tn(env.arr("off", (1,)), requires_grad=True))
+            ref_off = nn.Parameter(Tn(snapshot(off.data), requires_grad=True))
+        opt_params = list(model.parameters()) + ([off] if off is not None else [])
+        opt = optim.SGD(opt_params, lr=lr)
         log = []                      # events observed from outside
+
+        def is_clear(p):
+            g = gradof(p)
+            if g is None:
+                return True
+            if env.sym:
+                return all(n_.op == "const" and n_.val == 0 for n_ in E.flat_nodes(g)[0])
+            return not np.asarray(g, dtype=np.float64).any()
 
         def all_training(m):
             return [m.training] + [s.training for s in m.submodules()]
 
         def crit(o, y):
-            l = crit_real(o, y)
+            l = crit_real(o if off is None else o + off, y)
             log.append(("loss", l, all_training(model), common.grad_enabled()))
+            if l.requires_grad:
+                # observed by behaviour, not by which method did it: when the batch's backward starts, no parameter the
+                # optimizer updates holds anything from an earlier batch
+                orig_bw = l.backward
+
+                def bw(*a_, **k_):
+                    log.append(("zero",) if all(is_clear(p_) for p_ in opt_params) else ("dirty",))
+                    return orig_bw(*a_, **k_)
+                l.backward = bw
             return l
-        orig_step, orig_zero = opt.step, opt.zero_grad
+        orig_step = opt.step
 
         def step():
             log.append(("step", all_training(model), common.grad_enabled(), [snapshot(p.data) for p in params]))
             return orig_step()
 
-        def zero():
-            log.append(("zero",))
-            return orig_zero()
-        opt.step, opt.zero_grad = step, zero
+        opt.step = step
         evaluator = None
         if mode is not None:
             if sp.get("metric_callbacks"):
@@ -282,18 +303,20 @@ class Case:
                              got is not None and abs(float(got) - want) < 1e-9, "history %s, fraction %s" % (got, want))
         # ---- trajectory: the parameters after fit equal those of a hand-rolled loop (zero_grad, backward, step per batch,
         #      training mode) on an identical model; validation in between must not have changed anything
-        ropt = optim.SGD(ref_model.parameters(), lr=lr)
+        ropt = optim.SGD(list(ref_model.parameters()) + ([ref_off] if ref_off is not None else []), lr=lr)
         for ep in range(sp["epochs"]):
             ref_model.train()
             for i in range(nb):
                 Xb, yb = Tn(Xt[i * bs:(i + 1) * bs]), Tn(yt[i * bs:(i + 1) * bs])
                 o = ref_model(Xb).squeeze(dim=1)
-                l = crit_real(o, yb)
+                l = crit_real(o if ref_off is None else o + ref_off, yb)
                 ropt.zero_grad()
                 l.backward()
                 ropt.step()
         for k, (p, q) in enumerate(zip(params, ref_params)):
             out.pair("parameter %d after fit = hand-rolled loop" % k, snapshot(p.data), snapshot(q.data))
+        if off is not None:
+            out.pair("the loss module's parameter after fit = hand-rolled loop", snapshot(off.data), snapshot(ref_off.data))
         for k, (b1, b2) in enumerate(zip(bns, ref_bns)):
             out.pair("running_mean %d after fit = hand-rolled loop (validation changed no statistic)" % k, snapshot(b1.running_mean.data), snapshot(b2.running_mean.data))
             out.pair("running_var %d after fit = hand-rolled loop (validation changed no statistic)" % k, snapshot(b1.running_var.data), snapshot(b2.running_var.data))
@@ -380,6 +403,9 @@ def enumerate_specs(tier):
                       "stale_grads": True})
         specs.append({"epochs": 1, "batches": nb, "val": val, "evaluator": None, "grad_on_entry": True, "test": False,
                       "fit_twice": True})
+    # the optimizer also owns a parameter of the loss module (not registered in the model)
+    specs.append({"epochs": 1, "batches": 2, "val": False, "evaluator": None, "grad_on_entry": True, "test": False, "loss_param": True})
+    specs.append({"epochs": 2, "batches": 1, "val": True, "evaluator": None, "grad_on_entry": True, "test": False, "loss_param": True})
     for mode in ("binary", "multi-class", "categorical"):
         for val in (False, True):
             specs.append({"epochs": 1, "batches": 1, "val": val, "evaluator": mode, "grad_on_entry": True, "test": False})
